@@ -171,3 +171,51 @@ Proof.
       simpl in H. subst ok. destruct (search_sound _ _ _ _ _ _ _ _ E) as [ls [s [R [T P]]]].
       exists ls, s. repeat split; auto. unfold obs. rewrite T. simpl trace. rewrite app_nil_r. apply rev_involutive.
 Qed.
+
+(* ---- fine-grained observations (lock-region granularity, open macro steps, frozen goroutines) *)
+Lemma search_open_sound : forall fuel c s mv evs rest b b',
+  search_open fuel c s mv evs rest b = (true, b') ->
+  exists ls s', run c s ls = Some s' /\ trace s' = rev (evs ++ fine_events rest) ++ trace s /\ panicked s' = false.
+Proof.
+  induction fuel as [|f IH]; intros c s mv evs rest b b' H; cbn [search_open] in H; [discriminate|].
+  destruct (b =? 0); [discriminate|].
+  destruct (split_moves c s (own_labels s mv)) as [taus vis] eqn:E. cbn [fst] in H.
+  assert (Htau : forall evs0 b0 b1,
+            try_all (fun s1 b2 => search_open f c s1 mv evs0 rest b2) taus b0 = (true, b1) ->
+            exists ls s', run c s ls = Some s' /\ trace s' = rev (evs0 ++ fine_events rest) ++ trace s /\
+                          panicked s' = false).
+  { intros evs0 b0 b1 Hf. destruct (try_all_true _ _ _ _ Hf) as [s1 [b2 [Hin Hm]]].
+    destruct (split_moves_sound _ _ _ _ _ _ E Hin) as [l [Hl Ht]].
+    destruct (IH _ _ _ _ _ _ _ Hm) as [ls [s' [Hr [Htr Hp]]]].
+    exists (l :: ls), s'. simpl. rewrite Hl. repeat split; auto. congruence. }
+  destruct evs as [|e r].
+  - destruct rest as [|[mv' evs'] rest'].
+    + destruct (negb (panicked s)) eqn:Ep.
+      * exists [], s. simpl. repeat split; auto. destruct (panicked s); auto; discriminate.
+      * eapply Htau. exact H.
+    + destruct (search_open f c s mv' evs' rest' (b - 1)) as [ok b1] eqn:Em. destruct ok.
+      * destruct (IH _ _ _ _ _ _ _ Em) as [ls [s' [Hr [Htr Hp]]]]. exists ls, s'. repeat split; auto.
+      * eapply Htau. exact H.
+  - destruct (if mem (event_thread e) mv then vis_step c s e else None) as [s1|] eqn:Ev.
+    + destruct (search_open f c s1 mv r rest (b - 1)) as [ok b1] eqn:Em. destruct ok.
+      * assert (Ev' : vis_step c s e = Some s1) by (destruct (mem (event_thread e) mv); [exact Ev | discriminate]).
+        destruct (vis_step_sound _ _ _ _ Ev') as [Hl Ht].
+        destruct (IH _ _ _ _ _ _ _ Em) as [ls [s' [Hr [Htr Hp]]]].
+        exists (label_of e :: ls), s'. simpl run. rewrite Hl. repeat split; auto.
+        rewrite Htr, Ht. simpl. rewrite <- !app_assoc. reflexivity.
+      * eapply Htau. exact H.
+    + eapply Htau. exact H.
+Qed.
+
+Theorem accept_fine_sound : forall steps,
+  accept_fine steps = true ->
+  exists ls s, run fixed init ls = Some s /\ obs s = fine_events steps /\ panicked s = false.
+Proof.
+  intros steps H. unfold accept_fine in H. destruct steps as [|[mv evs] rest].
+  - exists [], init. simpl. auto.
+  - destruct (search_open (6 * length (fine_events ((mv, evs) :: rest)) + 40 * length ((mv, evs) :: rest) + 40)
+                          fixed init mv evs rest 200000) as [ok b'] eqn:E.
+    simpl in H. subst ok. destruct (search_open_sound _ _ _ _ _ _ _ _ E) as [ls [s [R [T P]]]].
+    exists ls, s. repeat split; auto. unfold obs. rewrite T. simpl trace. rewrite app_nil_r.
+    rewrite rev_involutive. reflexivity.
+Qed.
